@@ -582,7 +582,10 @@ func perturbPath(r *Rng, p string) string {
 }
 
 func perturbHost(r *Rng, h string) string {
-	switch r.Intn(14) {
+	switch r.Intn(15) {
+	case 12:
+		// non-empty Hosts that are empty once port and trailing dot are stripped: served by the path-only fallback
+		return Pick(r, []string{".", ":8080", ".:8080", ":", ".:"})
 	case 0:
 		return h + ":8080"
 	case 1:
